@@ -39,7 +39,11 @@ template <typename Container, fcppt::optional::object_concept Optional>
       std::forward<Optional>(_source),
       [] { return Container{}; },
       [](auto &&_inner)
-      { return fcppt::container::make<Container>(fcppt::move_if_rvalue<Optional>(_inner)); });
+      {
+        // container::make moves from its arguments: hand it a copy if _source is an lvalue.
+        return fcppt::container::make<Container>(
+            fcppt::type_traits::value_type<Container>{fcppt::move_if_rvalue<Optional>(_inner)});
+      });
 }
 }
 
